@@ -62,6 +62,8 @@ func (w *World) sendAnchors() *sendAnchors {
 			}
 		}
 	}
+	aliasRole(a.esend, "(*actor.Engine).send")
+	aliasRole(a.eIsLocal, "(*actor.Engine).isLocalMessage")
 	a.evProcSend = EvInvoke("Processer.Send", w.IfaceMethod("actor", "Processer", "Send"))
 	a.evInboxSend = EvInvoke("Inboxer.Send", w.IfaceMethod("actor", "Inboxer", "Send"))
 	a.evRemoteSend = EvInvoke("Remoter.Send", w.IfaceMethod("actor", "Remoter", "Send"))
